@@ -246,7 +246,7 @@ Lemma accept_ok_parts r ev : accept_ok r ev = true ->
   /\ seteqn (e_vis_post ev) (vis_list g' v') = true.
 Proof.
   unfold accept_ok. cbv zeta. rewrite !andb_true_iff.
-  intros [[[[[[[[[H1 H2] H3] H4] H5] H6] H7] H8] H9] H10].
+  intros [[[[[[[[[[[H1 H2] H3] H4] H5] H6] H7] H8] H9] H10] _] _].
   repeat split.
   - now apply negb_true_iff in H1.
   - exact H2.
@@ -441,7 +441,7 @@ Proof.
     apply wc_abandoned_leaves in Hab. discriminate.
   - intros w' Hn Hw'.
     unfold accept_ok in Hok. cbv zeta in Hok. rewrite !andb_true_iff in Hok.
-    destruct Hok as [[[_ Hwc] _] _].
+    destruct Hok as [[[[[_ Hwc] _] _] _] _].
     rewrite Hc, Hw, Hw', Himm in Hwc.
     destruct (e_nops ev =? 0) eqn:E0; [apply Nat.eqb_eq in E0; lia|].
     apply andb_true_iff in Hwc. destruct Hwc as [Hf Hp].
@@ -584,4 +584,71 @@ Proof.
   - apply event_okb_complete. eapply accept_event_ok; eauto.
   - pose proof (accept_inv r ev r1 Ha) as [E _].
     specialize (IH r1 r' (accept_wf r ev r1 Hg Ha) Hrun). now rewrite E in IH.
+Qed.
+
+(** * When can the exception apply?  Only if the working-copy commit is immutable when a
+      command starts; the CLI leaves it mutable after every operation of the same workspace
+      under an unchanged configuration. *)
+Definition WcMutable (g : graph) (v : view) (e : hexpr) (ws : N) : Prop :=
+  forall w, wc_of v ws = Some w -> immb g v e w = false.
+
+Lemma accept_ok_tail r ev : accept_ok r ev = true ->
+  (e_nops ev = 0 -> r_view r = e_view ev /\ e_new ev = [])
+  /\ (e_cmd ev = CObserve -> e_nops ev = 0)
+  /\ (0 < e_nops ev -> e_cmd ev <> CWorkspaceAdd -> e_cmd ev <> CObserve ->
+      WcMutable (r_graph r ++ e_new ev) (e_view ev) (e_cfg ev) (e_ws ev)).
+Proof.
+  unfold accept_ok. cbv zeta. rewrite !andb_true_iff.
+  intros [[[[_ H9] _] H11] H12]. repeat split.
+  - rewrite H in H11. cbn in H11. apply andb_true_iff in H11. destruct H11 as [A _].
+    now apply view_eqb_spec.
+  - rewrite H in H11. cbn in H11. apply andb_true_iff in H11. destruct H11 as [_ B].
+    destruct (e_new ev); [reflexivity|discriminate].
+  - intros Hc. rewrite Hc in H9. rewrite !andb_true_iff in H9. destruct H9 as [[A _] _].
+    now apply Nat.eqb_eq in A.
+  - intros Hn Hc1 Hc2 w Hw.
+    assert (L : (0 <? e_nops ev) = true) by now apply Nat.ltb_lt.
+    destruct (e_cmd ev); try congruence; rewrite L, Hw in H12; now apply negb_true_iff in H12.
+Qed.
+
+Lemma accept_wc_mutable r ev r' :
+  accept r ev = Some r' -> e_cmd ev <> CWorkspaceAdd ->
+  WcMutable (r_graph r) (r_view r) (e_cfg ev) (e_ws ev) ->
+  WcMutable (r_graph r') (r_view r') (e_cfg ev) (e_ws ev).
+Proof.
+  intros Hacc Hc Hpre. pose proof (accept_inv r ev r' Hacc) as [-> [_ Hok]]. cbn [r_graph r_view].
+  destruct (N.eq_dec (e_status ev) 0) as [Hst|Hst].
+  - rewrite Hst in Hok. cbn in Hok. destruct (accept_ok_tail r ev Hok) as [H0 [Hobs Hpos]].
+    destruct (e_nops ev) as [|n] eqn:En.
+    + destruct (H0 eq_refl) as [Hv Hn]. rewrite <- Hv, Hn, app_nil_r. exact Hpre.
+    + apply Hpos; [lia|assumption|]. intros X. specialize (Hobs X). discriminate.
+  - destruct (accept_failed r ev _ Hacc Hst) as [Hu _]. apply unchanged_parts in Hu.
+    destruct Hu as [_ [Hv [Hn _]]]. rewrite <- Hv, Hn, app_nil_r. exact Hpre.
+Qed.
+
+(** With one workspace, an unchanged configuration and a mutable working-copy commit at the
+    start, no accepted run ever touches a visible immutable commit. *)
+Definition Untouched (r : repo) (ev : event) : Prop :=
+  e_status ev = 0%N ->
+  forall x, In x (vis_list (r_graph r) (r_view r)) ->
+    immb (r_graph r) (r_view r) (e_cfg ev) x = true -> ~ Touched r ev x.
+
+Lemma run_untouched evs : forall r r' e ws,
+  wf_graph (r_graph r) ->
+  (forall ev, In ev evs -> e_cfg ev = e /\ e_ws ev = ws /\ e_cmd ev <> CWorkspaceAdd) ->
+  WcMutable (r_graph r) (r_view r) e ws ->
+  run r evs = Some r' -> run_prop Untouched r evs.
+Proof.
+  induction evs as [|ev t IH]; intros r r' e ws Hg Hall Hm Hrun; cbn [run_prop]; [exact I|].
+  cbn [run] in Hrun. destruct (accept r ev) as [r1|] eqn:Ha; [|discriminate].
+  destruct (Hall ev (or_introl eq_refl)) as [Ee [Ew Ec]].
+  split.
+  - intros Hst x Hx Hi Ht.
+    destruct (accept_no_rewrite r ev r1 Hg Ha Hst x Hx Hi Ht) as [w [Hw [Hiw _]]].
+    rewrite Ee, Ew in *. rewrite (Hm w Hw) in Hiw. discriminate.
+  - apply (IH r1 r' e ws).
+    + eapply accept_wf; eauto.
+    + intros ev' Hin. apply Hall. now right.
+    + rewrite <- Ee, <- Ew. apply (accept_wc_mutable r ev r1 Ha Ec). now rewrite Ee, Ew.
+    + exact Hrun.
 Qed.
